@@ -364,7 +364,7 @@ func Run(t *testing.T, p *Part) {
 
 	// ---- Coq cases
 	if p.CoqCase != nil {
-		cases := vh.NewCases("cases_c12_"+p.Name, p.CoqImports, p.CoqType, p.CoqChecker(flags))
+		cases := vh.NewCases("cases_c12_"+strings.ReplaceAll(p.Name, "-", "_"), p.CoqImports, p.CoqType, p.CoqChecker(flags))
 		max := p.MaxCoq
 		if max == 0 {
 			max = 1500
